@@ -230,8 +230,8 @@ def check(run) -> None:
     D = c18.D
     # ---- S->C: Turn transitions of the model as real engine turns ---------------------------------
     chain4 = c18.graph_def({(1, 2): D // 2, (2, 7): D // 4, (7, 8): D // 2, (1, 7): D})
-    consts = c18.base_consts(NN=4, Modes=["additive"], AlphaDens=[2], Clamps=c18.clamp_def([(-D, D)] if q else c18.CLAMPS_0),
-                             Floors=[D // 4], Thresholds=[D // 2], TopKs=[3], PairCaps=[2] if q else [2, 64],
+    consts = c18.base_consts(NN=4, Modes=["additive"], AlphaDens=[2], Clamps=c18.clamp_def([(-D, D)]),
+                             Floors=[D // 4], Thresholds=[D // 2], TopKs=[3], PairCaps=[2],
                              Maints=Def(c18.tla_set([c18.M1] if q else [c18.M1, c18.M2])),
                              InitGraphs=Def(c18.tla_set(["<<>>", chain4])), ItemIds=c18.seq_def([1, 2, 7]),
                              Scores=c18.seq_def([D] if q else [D // 4, D]), MaxItems=2 if q else 3, Ops=["turn"], InitGates=[True, False],
